@@ -47,14 +47,19 @@ def render(cfg, sub="", ident=(0, 0, 0, 0), uniq="", colors=None):
             for k, kd in m["keys"].items():
                 v = str(kd["n"]) if kd["o"] == 0 else "%d,%d" % (kd["n"], kd["o"])
                 out.append("      %s = %s" % (k, q(v)))
-        if m["axes"]:
+        # one [[mapping.analog]] section per sub-handler: an axis name may carry its sub-handler ("Touchpad:ABS_X")
+        groups = {}
+        for a, ad in m["axes"].items():
+            sh, name = a.split(":", 1) if ":" in a else (sub, a)
+            groups.setdefault(sh, {})[name] = ad
+        for sh, axes in groups.items():
             out.append("  [[mapping.analog]]")
-            out.append("    subhandler = %s" % q(sub))
-            handler_dz = [a for a in m["axes"].values() if a.get("dzsrc", "specific") != "specific"]
+            out.append("    subhandler = %s" % q(sh))
+            handler_dz = [a for a in axes.values() if a.get("dzsrc", "specific") != "specific"]
             if handler_dz:
                 out.append("    default_deadzone = %s" % fl(handler_dz[0]["dzn"], handler_dz[0]["dzd"]))
             out.append("    [mapping.analog.map]")
-            for a, ad in m["axes"].items():
+            for a, ad in axes.items():
                 f = ["type = %s" % q(ad["type"])]
                 if ad["type"] == "cc":
                     f.append("cc = %d" % ad["cc"])
@@ -77,7 +82,7 @@ def render(cfg, sub="", ident=(0, 0, 0, 0), uniq="", colors=None):
                 if ad["centre"]:
                     f.append("deadzone_at_center = true")
                 out.append("      %s = { %s }" % (a, ", ".join(f)))
-            spec = [(a, ad) for a, ad in m["axes"].items() if ad.get("dzsrc", "specific") == "specific"]
+            spec = [(a, ad) for a, ad in axes.items() if ad.get("dzsrc", "specific") == "specific"]
             if spec:
                 out.append("    [mapping.analog.deadzones]")
                 for a, ad in spec:
